@@ -32,7 +32,7 @@ REQUIRED = [
     "solveLinear_correct", "solveQuadratic_two_roots", "solveQuadratic_one_root", "solveQuadratic_no_root",
     "solvers_delegate", "solveNormalizedCubic_triple_root", "solveNormalizedCubic_real_partial",
     "cardanoA_zero_iff", "cubic_real_branch_defect", "cubic_real_full_statement_false",
-    "solveNormalizedCubic_complex_roots",
+    "solveNormalizedCubic_complex_roots", "solveNormalizedCubicStable_real",
     "color4_agrees_with_vec3", "hsv2rgb_rgb2hsv", "rgb2hsv_hsv2rgb", "integer_wrappers_scale_by_max",
     "rgb2packed_packed2rgb_exact", "color4_int_alpha_defect",
 ]
@@ -140,6 +140,24 @@ def wrapper_casts():
             casts = set(re.findall(r"/\s*(float|double)\s*\(\s*std::numeric_limits<T>::max\s*\(\)\s*\)", m.group(1))) if m else set()
             res[fn + tag] = ("f" if casts == {"float"} else "d" if casts == {"double"} else "?")
     return res
+
+
+def cubic_variant():
+    """which cube-root argument the D > 0 branch of solveNormalizedCubic uses (source text):
+    'orig'   : real_root (-q / 2 + std::sqrt (D), 3)                      -> Model.Roots.solveNormalizedCubic
+    'stable' : real_root ((q > 0) ? -q / 2 - std::sqrt (D) : -q / 2 + std::sqrt (D), 3)
+                                                                          -> Model.Roots.solveNormalizedCubicStable
+    '?'      : anything else (the hand model has to be re-written)"""
+    src = open(os.path.join(lib.REPO, "src", "Imath", "ImathRoots.h")).read()
+    m = re.search(r"T\s+u\s*=\s*real_root\s*\((.*?),\s*3\s*\)\s*;", src, re.S)
+    if not m:
+        return "?"
+    e = re.sub(r"\s+", "", m.group(1))
+    if e == "-q/2+std::sqrt(D)":
+        return "orig"
+    if e in ("(q>0)?-q/2-std::sqrt(D):-q/2+std::sqrt(D)", "q>0?-q/2-std::sqrt(D):-q/2+std::sqrt(D)"):
+        return "stable"
+    return "?"
 
 
 # ---------------------------------------------------------------------------
@@ -527,15 +545,24 @@ def cbrt(x):
 def check_roots(cx):
     chk = cx.chk
     cases = root_cases(chk.rng)
+    variant = cubic_variant()
+    chk.extra["cubic_real_branch_variant(from source text)"] = variant
+    chk.oblige("tie:ImathRoots.h:cube-root-argument-recognised", "translator", variant != "?", variant)
+    if variant == "?":
+        chk.fail("tie:cubic-variant", "tie:ImathRoots.h:real_root-argument",
+                 "the `T u = real_root (...)` line of solveNormalizedCubic has a form the hand model does not cover", {}, False)
     lines, meta = [], []
     for cmd, co, roots, cls in cases:
         for ty, h, cv in (("d", hd, float), ("f", hf, lambda v: tof(float(v)))):
-            if cmd in ("rl", "rq", "rn") and False:
-                pass
             lines.append("%s %s %s" % (cmd, ty, " ".join(h(cv(float(c))) for c in co)))
             meta.append((cmd, ty, co, roots, cls))
-    a, b = cx.both(lines, "roots")
-    if a is None:
+    rc1, a = run_lines(cx.binary, lines, "roots_impl")
+    mlines = [("rnS" + l[2:] if l.startswith("rn ") else "rcS" + l[2:] if l.startswith("rc ") else l) for l in lines] \
+        if variant == "stable" else lines
+    rc2, b = run_lines(DRV, mlines, "roots_model")
+    if rc1 != 0 or rc2 != 0 or len(a) != len(lines) or len(b) != len(lines):
+        chk.oblige("corr:roots:protocol", "correspondence", False)
+        chk.fail("corr:roots", "protocol:roots", "harness/driver did not answer every line (roots)", {"impl_rc": rc1, "model_rc": rc2}, False)
         return
     corr_bad, spec_bad, defect = [], [], []
     resid = {"d": {"real": 0.0, "complex": 0.0}, "f": {"real": 0.0, "complex": 0.0}}
